@@ -336,6 +336,9 @@ func ApplyEdits(r *vh.Rand, b *Bundle, pkg string, n int) []EditRec {
 				f = &Field{Kind: "array", Item: f}
 			}
 			p := &Property{Name: g.fieldName(sc), F: f}
+			if !site.inOneof && r.Chance(20) {
+				p.Optional = true // also on the array form (plain repeated field)
+			}
 			*site.props = append(*site.props, p)
 			recs = append(recs, EditRec{"field", site.desc, p.Name + " ref to implicit type " + w[1], site.at.fieldEdit(r, p)})
 		case k < 55 && len(msgs) > 0: // field
